@@ -39,11 +39,11 @@ let rec split_last = function
   | [x] -> ([], x)
   | x :: r -> let (a, l) = split_last r in (x :: a, l)
 
-let handle_seq cap rest =
+let rec handle_seq_from st0 cap rest =
   let cap = if cap = "-" then None else Some (nat_of_int (int_of_string cap)) in
   let (opw, fin) = split_last rest in
   let ops = List.map parse_op opw in
-  let (rs, st) = run_log cap b_init ops in
+  let (rs, st) = run_log cap st0 ops in
   let panicked = List.exists (function Panic _ | OutOfFuel -> true | _ -> false) rs in
   let rstr = if rs = [] then "-" else String.concat "," (List.map show_r rs) in
   let inl = match st.head with Some _ -> "1" | None -> "0" in
@@ -56,6 +56,8 @@ let handle_seq cap rest =
     | ["X"] -> "-"
     | _ -> failwith "bad final" in
   rstr ^ " " ^ inl ^ " " ^ hex_of_bytes st.buf ^ " " ^ finstr
+
+let handle_seq cap rest = handle_seq_from b_init cap rest
 
 let wire_word e = match int_of_n e with
   | 1 -> "LongName" | 2 -> "TrailingData" | 3 -> "RelativeName" | 4 -> "ShortInput" | 5 -> "BadLabel"
@@ -113,6 +115,29 @@ let handle = function
       if starts_with (parse_labels (bytes_of_hex h) @ root) (parse_labels (bytes_of_hex b) @ root) then "true" else "false"
   | ["chroot"; h] -> show_p (fun l -> "Ok:" ^ hex_of_bytes l) (n_chain_root (bytes_of_hex h))
   | ["uchain"; k; l; r] -> show_p (fun l -> "Ok:" ^ hex_of_bytes l) (unc_chain (k = "A") (bytes_of_hex l) (bytes_of_hex r))
+  | ["serde"; "A"; cs] -> (match name_from_chars None (chars_of cs) with Ok b -> "Ok:" ^ hex_of_bytes b | Panic _ -> "Panic" | _ -> "Err")
+  | ["serde"; "R"; cs] -> (match serde_de_rel None (chars_of cs) with Ok b -> "Ok:" ^ hex_of_bytes b | Panic _ -> "Panic" | _ -> "Err")
+  | ["serde"; "U"; cs] -> (match uncertain_from_chars None (chars_of cs) with Ok (a, b) -> "Ok:" ^ (if a then "A:" else "R:") ^ hex_of_bytes b | Panic _ -> "Panic" | _ -> "Err")
+  | ["ser"; "A"; h] -> show_chars (display_name (parse_labels (bytes_of_hex h)))
+  | ["ser"; "R"; h] -> show_chars (display_rel (parse_labels (bytes_of_hex h)))
+  | ["ser"; "UA"; h] -> show_chars (display_uncertain true (parse_labels (bytes_of_hex h)))
+  | ["ser"; "UR"; h] -> show_chars (display_uncertain false (parse_labels (bytes_of_hex h)))
+  | ["chain3"; a; b; c] -> show_w (chain3 (nat_arg a) (nat_arg b) (nat_arg c))
+  | ["const"; k] ->
+      hex_of_bytes (match k with
+        | "root" -> const_root | "root_slice" -> const_root_slice | "empty" -> const_empty
+        | "wildcard" -> const_wildcard | "empty_slice" -> const_empty_slice | "wildcard_slice" -> const_wildcard_slice
+        | _ -> failwith "bad const")
+  | "fromb" :: h :: rest ->
+      (match b_from_builder (bytes_of_hex h) with
+       | Ok st -> handle_seq_from st "-" rest
+       | Err e -> wire_word e | Panic _ -> "Panic" | OutOfFuel -> "OutOfFuel")
+  | ["scan"; cs] -> (match name_from_chars None (chars_of cs) with Ok b -> "Ok:" ^ hex_of_bytes b | Panic _ -> "Panic" | _ -> "Err")
+  | ["nparse"; h] ->
+      (match name_parse (bytes_of_hex h) with
+       | Ok b -> "Ok:" ^ hex_of_bytes b
+       | Err e -> if int_of_n e = 4 then "ShortInput" else "Form"
+       | Panic _ -> "Panic" | OutOfFuel -> "OutOfFuel")
   | ["intorel"; h] -> show_p (fun l -> "Ok:" ^ hex_of_bytes l) (n_into_relative (bytes_of_hex h))
   | ["intoabs"; h] -> show_p (fun l -> "Ok:" ^ hex_of_bytes l) (n_into_absolute None (bytes_of_hex h))
   | ["txt"; cs] ->
